@@ -60,10 +60,12 @@ def ensure_user_transform():
 
         def __init__(self):
             self.mean = None
+            self.params_set = False
 
         def __call__(self, x, by=0.0):
-            if self.mean is None:
+            if not self.params_set:
                 self.mean = float(np.mean(x))
+                self.params_set = True
             return np.asarray(x, dtype=float) - self.mean + np.asarray(by, dtype=float)
 
     register_stateful_transform(MeanShift)
